@@ -1,4 +1,5 @@
 import PsVerif.Model.AbsLv
+import PsVerif.Gen.ActionEvents
 /-
 C16  Every swap eventually terminates when restarts happen from time to time.
 
@@ -93,5 +94,45 @@ example : (cert .SwapInSender).mem ⟨.State_SwapInSender_AwaitClaimPayment, (F.
   decide +kernel
 example : (cert .SwapOutSender).mem ⟨.State_SwapOutSender_AwaitTxBroadcastedMessage, F.init, none, false, true⟩ = true := by
   decide +kernel
+
+
+/-! ### results of actions the state table does not handle (generated go/ast facts) -/
+
+def resultEvents (a : Act) : List Ev :=
+  match actionReturns.find? (fun r => r.1 == a.name) with
+  | some r => r.2.1
+  | none => []
+
+/-- (role, state, action, event): the action chain of the state can return the event, the event is neither `NoOp`
+    nor `Event_Done` (which end the handling), and the state has no edge for it: `SendEvent` answers
+    ErrEventRejected and the swap stays where it is until something else moves it -/
+def unhandledResults : List (Role × St × Act × Ev) :=
+  Role.all.flatMap fun r => (table r).flatMap fun row => row.acts.flatMap fun a =>
+    ((resultEvents a).filter fun e => e != .NoOp && e != .Event_Done && (Model.Abs.nextSt (table r) row.st e).isNone).map fun e => (r, row.st, a, e)
+
+/-- every action of the tables was found in the source, and every return statement was classified -/
+theorem C16_action_facts_complete :
+    (Act.all.filter fun a => (actionReturns.find? (fun r => r.1 == a.name)).isNone) = [] ∧
+    (actionReturns.filter fun r => !r.2.2.2.isEmpty) = [] := by decide
+
+/-- the complete list of action results no edge exists for.  All six are `Event_ActionFailed` from branches that
+    need a chain to be disabled or the output script of already validated parameters to be uncomputable
+    (`getOnChainServices`, `GetOutputScript` errors); a failing WALLET call in the claim states must come back as
+    `Event_OnRetry` (next theorem).  A new entry here is a new way for a swap to get stuck. -/
+theorem C16_unhandled_results : unhandledResults = [
+    (.SwapOutSender, .State_SwapOutSender_ClaimSwap, .ClaimSwapTransactionWithPreimageAction, .Event_ActionFailed),
+    (.SwapOutReceiver, .State_SwapOutReceiver_AwaitClaimInvoicePayment, .AwaitPaymentOrCsvAction, .Event_ActionFailed),
+    (.SwapOutReceiver, .State_WaitCsv, .AwaitCsvAction, .Event_ActionFailed),
+    (.SwapInSender, .State_SwapInSender_AwaitClaimPayment, .AwaitPaymentOrCsvAction, .Event_ActionFailed),
+    (.SwapInSender, .State_WaitCsv, .AwaitCsvAction, .Event_ActionFailed),
+    (.SwapInReceiver, .State_SwapInReceiver_ClaimSwap, .ClaimSwapTransactionWithPreimageAction, .Event_ActionFailed)] := by decide
+
+/-- the actions that broadcast a claim keep the swap in its claim state and ask to be run again: exactly the
+    preimage claim and the CSV claim can return `Event_OnRetry`, and every state they run in has the retry edge -/
+theorem C16_claims_retry :
+    (Act.all.filter fun a => (resultEvents a).contains .Event_OnRetry) = [.ClaimSwapTransactionWithCsv, .ClaimSwapTransactionWithPreimageAction] ∧
+    (Role.all.all fun r => (table r).all fun row =>
+      !(row.acts.any fun a => (resultEvents a).contains .Event_OnRetry) || Model.Abs.nextSt (table r) row.st .Event_OnRetry == some row.st) = true := by
+  decide
 
 end PsVerif.Props.C16
